@@ -295,6 +295,11 @@ func c05CollectStructs(t reflect.Type, out map[reflect.Type]bool) {
 	case gen.TTime, gen.TCTime, gen.TBigInt, gen.TBigFloat, gen.TAPD, gen.TDFloat, gen.TURL, gen.TMedia, gen.TNode, gen.TEdge:
 		return
 	}
+	if gen.IsRecursiveType(t) {
+		// a recursive type contains itself: whether the inner occurrences of a registered type are written as records
+		// is the same don't-care as below, so these types are never registered (and the walk must not loop)
+		return
+	}
 	switch t.Kind() {
 	case reflect.Ptr, reflect.Slice, reflect.Array:
 		c05CollectStructs(t.Elem(), out)
